@@ -1,4 +1,5 @@
 #!/usr/bin/env python3
+# OUTPUT: ErrorKinds.v
 """Translator for C14: which `Error::<Variant>` each failure class is mapped to by the two public entry points.
 
 usage: error_kinds.py /repo /verif/coq/theories/Generated      (writes only ErrorKinds.v, only if changed)
@@ -7,6 +8,8 @@ Read from the working tree:
   src/validator/mod.rs   pub fn validate_json_from_str / validate_cbor_from_slice (native, default-feature variants):
                          the constructor inside `.map_err(..)` of the `cddl_from_str(..)` statement (schema parse failure)
                          and of the `serde_json::from_str(..)` / `decode_cbor(..)` statement (document parse failure);
+                         `.map_err(helper)` with a free function `fn helper(..) -> <ns>::Error..` of mod.rs is followed
+                         into the helper, whose body must build exactly one constructor `<ns>::Error::<V>(`;
                          the function must end by returning `<validator>.validate()`
   src/validator/json.rs, src/validator/cbor.rs
                          `fn validate(&mut self)`: the constructor of `return Err(Error::<V>(self.errors.clone()))`
@@ -59,9 +62,33 @@ def pick(bodies, name):
     return good[0]
 
 
-def ctor_of(stmt, ns):
+def ctor_of(stmt, ns, mod_src=""):
     m = re.search(r"\.map_err\(\s*(?:\|\s*\w+\s*\|\s*)?%s::Error::(\w+)" % ns, stmt)
-    return m.group(1) if m else None
+    if m:
+        return m.group(1)
+    # .map_err(helper): a free function of mod.rs that builds the error
+    h = re.search(r"\.map_err\(\s*([a-z_][a-z0-9_]*)\s*\)", stmt)
+    if not h:
+        return None
+    name = h.group(1)
+    f = re.search(r"\bfn %s\s*\([^)]*\)\s*->\s*%s::Error[^{]*\{" % (re.escape(name), ns), mod_src)
+    if not f:
+        die("helper %s used in map_err is not a function of mod.rs returning %s::Error" % (name, ns))
+    i = f.end() - 1
+    depth, j = 0, i
+    while True:
+        c = mod_src[j]
+        if c == "{":
+            depth += 1
+        elif c == "}":
+            depth -= 1
+            if depth == 0:
+                break
+        j += 1
+    ctors = set(re.findall(r"\b%s::Error::(\w+)\s*\(" % ns, mod_src[i:j]))
+    if len(ctors) != 1:
+        die("helper %s builds %d different %s::Error constructors (%s); expected exactly one" % (name, len(ctors), ns, ", ".join(sorted(ctors))))
+    return ctors.pop()
 
 
 def entry(mod_src, fn, ns, doc_call, validator_var):
@@ -70,9 +97,9 @@ def entry(mod_src, fn, ns, doc_call, validator_var):
     schema = doc = None
     for s in stmts:
         if re.search(r"\bcddl_from_str\s*\(", s) and schema is None:
-            schema = ctor_of(s, ns)
+            schema = ctor_of(s, ns, mod_src)
         if re.search(doc_call, s) and doc is None:
-            doc = ctor_of(s, ns)
+            doc = ctor_of(s, ns, mod_src)
     if schema is None:
         die("%s: no `cddl_from_str(..).map_err(%s::Error::..)` statement" % (fn, ns))
     if doc is None:
